@@ -68,8 +68,6 @@ Proof.
     rewrite E2. reflexivity.
 Qed.
 
-Definition lay0 : layout := {| l_item := false; l_hist := false |}.
-
 Lemma cache_dir_lay0 : forall sub c, centry_dir sub = true -> cache_dir lay0 sub c = c ++ [Cache; sub].
 Proof. intros sub c H. unfold cache_dir. destruct sub; try discriminate; reflexivity. Qed.
 
